@@ -956,7 +956,9 @@ func main() {
 		}
 	case "gen":
 		st := hx.NewStats()
-		r := hx.NewRand(a.Seed)
+		// hx.NewRand(s+1) is hx.NewRand(s) shifted by one draw (state = seed*K + c, step = +K): reseed through
+		// the mixed output so that different seeds give unrelated streams
+		r := hx.NewRand(hx.NewRand(a.Seed).U64())
 		for i, cs := range witnesses() {
 			fmt.Fprintln(w, run(fmt.Sprintf("c08-w%d", i), cs))
 			if cs.Kind == "R" {
